@@ -84,6 +84,9 @@ var predicates = [][]byte{
 	{}, {0x51}, {0x00}, {0x51, 0x51, 0x93}, {0x75, 0x51}, {0x6a}, {0x76, 0x76, 0x76, 0x76},
 	{0x51, 0x63, 0x00, 0x00, 0x00, 0x00}, // loop until gas runs out
 	{0x6b, 0x51}, {0x50}, {0x87}, {0x51, 0x00, 0xc0},
+	// children that end with items still on their alt stack (refunded to the parent) or tidy up
+	{0x51, 0x6b, 0x51}, {0x52, 0x53, 0x6b, 0x6b, 0x51}, {0x51, 0x6b, 0x6c}, {0x20, 1, 2, 3, 4, 5, 6, 7, 8, 9, 10, 11, 12, 13, 14, 15, 16, 17, 18, 19, 20, 21, 22, 23, 24, 25, 26, 27, 28, 29, 30, 31, 32, 0x6b, 0x51},
+	{0x51, 0x6b, 0x00}, {0x51, 0x6b, 0x6a},
 }
 
 func stackFor(op byte, r *Rng) [][]byte {
@@ -635,6 +638,35 @@ func run(c *Ctx) error {
 				}
 			}
 		}
+		// 256-bit numeric boundary grid: products / sums / differences that cross 2^255 and 2^256
+		// (a product >= 2^256 whose low 256 bits look like a valid number must still be ERange)
+		{
+			pw := func(k uint, d int64) []byte {
+				n := new(big.Int).Lsh(big.NewInt(1), k)
+				n.Add(n, big.NewInt(d))
+				return encodeNum(n)
+			}
+			grid := [][]byte{u(0), u(1), u(2), u(3), u(1<<63 - 1), u(1 << 63), u(1<<64 - 1), pw(64, 0), pw(127, 0), pw(128, -1), pw(128, 0), pw(128, 1),
+				pw(192, 0), pw(254, -1), pw(254, 0), pw(255, -3), pw(255, -2), pw(255, -1)}
+			small := [][]byte{u(0), u(1), u(2), u(3), u(1<<64 - 1), pw(64, 0), pw(128, 0), pw(254, -1), pw(254, 0), pw(255, -2), pw(255, -1)}
+			for _, a := range grid {
+				for _, b := range grid {
+					eval(&vmlib.Case{Code: []byte{0x95}, Args: [][]byte{a, b}, VMVersion: 1, Gas: 20000, EntryID: make([]byte, 32)}, 0x95, false)
+				}
+			}
+			for _, op := range []byte{0x93, 0x94, 0x96, 0x97, 0xa3, 0xa4, 0x9f, 0xa2} {
+				for _, a := range small {
+					for _, b := range small {
+						eval(&vmlib.Case{Code: []byte{op}, Args: [][]byte{a, b}, VMVersion: 1, Gas: 20000, EntryID: make([]byte, 32)}, op, false)
+					}
+				}
+			}
+			for _, op := range []byte{0x8b, 0x8c, 0x8d, 0x8e, 0x91, 0x92} {
+				for _, a := range grid {
+					eval(&vmlib.Case{Code: []byte{op}, Args: [][]byte{a}, VMVersion: 1, Gas: 20000, EntryID: make([]byte, 32)}, op, false)
+				}
+			}
+		}
 		c.Stats.Count("boundary-corpus")
 	}
 	for opi := 0; opi < 256; opi++ {
@@ -678,6 +710,51 @@ func run(c *Ctx) error {
 			}
 			eval(cs, op, k == 0 && opi%40 == 7)
 		}
+	}
+	// ---- sequences: short programs in which an item is copied (DUP, OVER, PICK, 2DUP, 3DUP, TUCK,
+	// IFDUP, FROMALTSTACK after TOALTSTACK ...) or produced as a boolean and then transformed by
+	// a second opcode while the other copy (or a later boolean) is still observed: every value on
+	// the final stack must be what the reference semantics says, i.e. no opcode may write through
+	// to a copy, to an argument, or to a shared constant.
+	{
+		copiers := [][]byte{{0x76}, {0x78}, {0x6e}, {0x6f}, {0x7d}, {0x73}, {0x51, 0x79}, {0x00, 0x79}, {0x6b, 0x6c, 0x76}, {0x70}}
+		mutators := []byte{0x83, 0x8b, 0x8c, 0x8d, 0x8e, 0x91, 0x92, 0x84, 0x85, 0x86, 0x7e, 0x93, 0x94, 0x95, 0x98, 0x99, 0x80, 0x81, 0x89, 0xa8, 0xaa, 0x82}
+		boolops := [][]byte{{0x87}, {0x9c}, {0x9f}, {0x91}, {0x9a}, {0x9b}}
+		nseq := c.N(120, 600)
+		for i := 0; i < nseq; i++ {
+			var code []byte
+			var args [][]byte
+			switch c.Rng.Intn(3) {
+			case 0: // copy, mutate, keep both
+				code = append(code, copiers[c.Rng.Intn(len(copiers))]...)
+				code = append(code, mutators[c.Rng.Intn(len(mutators))])
+				if c.Rng.Chance(40) {
+					code = append(code, copiers[c.Rng.Intn(len(copiers))]...)
+					code = append(code, mutators[c.Rng.Intn(len(mutators))])
+				}
+			case 1: // boolean result, mutate it, drop, a fresh boolean afterwards
+				code = append(code, boolops[c.Rng.Intn(len(boolops))]...)
+				code = append(code, mutators[c.Rng.Intn(4)], 0x75)
+				code = append(code, 0x57, 0x57)
+				code = append(code, boolops[c.Rng.Intn(3)]...)
+			default: // mutate an argument, then copy the argument below it
+				code = append(code, mutators[c.Rng.Intn(len(mutators))], 0x78, 0x78)
+			}
+			for k := 0; k < 4; k++ {
+				if c.Rng.Chance(60) {
+					args = append(args, vm.Uint64Bytes(uint64(c.Rng.Intn(1000))))
+				} else {
+					args = append(args, c.Rng.Bytes(1+c.Rng.Intn(12)))
+				}
+			}
+			cs := &vmlib.Case{Code: code, Args: args, VMVersion: 1, Gas: 50000, EntryID: make([]byte, 32)}
+			before := fmt.Sprintf("%x", args)
+			eval(cs, code[0], i == 3)
+			if fmt.Sprintf("%x", cs.Args) != before {
+				c.Stats.Fail("class=argument-mutated: running a program changed the caller's argument slices", vmlib.Describe(cs, vmlib.Run(cs)))
+			}
+		}
+		c.Stats.Count("sequence-stream")
 	}
 	c.Stats.Count("model_evaluated")
 	c.Stats.Distribution["model_evaluated"] = c.Cases.Len()
